@@ -20,9 +20,24 @@ import (
 
 // recSpec: one record written by an event; Stamp goes into the record's `stamp` field
 type recSpec struct {
+	// Kind: Doc (default) | Settings | WDoc | WState | Item | WItem, see recKinds
+	Kind string `json:"kind,omitempty"`
+	// ID the scripted generator hands out (ignored for singletons: their id is fixed by the registry)
 	ID    uint64 `json:"id"`
 	Stamp int64  `json:"stamp"`
 	Pad   string `json:"pad,omitempty"`
+	// nested records: the parent is the ParentRaw-th create of the same event (1-based) or a stored id
+	ParentRaw int    `json:"parent_raw,omitempty"`
+	Parent    uint64 `json:"parent,omitempty"`
+	// Direct: the create carries the storage id itself (no raw id; the path of synced events)
+	Direct bool `json:"direct,omitempty"`
+}
+
+// argSpec: the event is the command verif.MakeOrder with an ODoc argument and one nested ORecord
+type argSpec struct {
+	ID     uint64 `json:"id"`
+	LineID uint64 `json:"line_id"`
+	Stamp  int64  `json:"stamp"`
 }
 
 // evSpec: one event; Stamp is its RegisteredAt
@@ -36,6 +51,7 @@ type evSpec struct {
 	Invalid   bool      `json:"invalid,omitempty"`   // a build error: stored as sys.Error
 	Creates   []recSpec `json:"creates,omitempty"`
 	Updates   []recSpec `json:"updates,omitempty"`
+	Arg       *argSpec  `json:"arg,omitempty"`
 }
 
 // op kinds: build (Ev -> Name) | plog | apply | wlog | restart | reread (Name -> As) |
@@ -47,6 +63,7 @@ type op struct {
 	Ev   *evSpec `json:"ev,omitempty"`
 	WS   uint64  `json:"ws,omitempty"`
 	ID   uint64  `json:"id,omitempty"`
+	Kind string  `json:"kind,omitempty"` // rawdel: record kind (singletons: the id is looked up)
 	// filled by the run
 	Obs *stepObs `json:"observed,omitempty"`
 }
@@ -60,6 +77,7 @@ type scenario struct {
 
 type slotObs struct {
 	Key    string `json:"key"`
+	Kind   string `json:"kind,omitempty"`
 	New    bool   `json:"new"`
 	Load   bool   `json:"load,omitempty"`
 	Val    string `json:"val"` // "id/stamp sha" of the bytes the op tried to write
@@ -79,6 +97,7 @@ type stepObs struct {
 
 type liveEvent struct {
 	spec   *evSpec
+	unbuilt string // non-empty: BuildRawEvent refused the event (e.g. singleton exists); its ops are skipped
 	raw    istructs.IRawEvent
 	berr   error
 	pev    istructs.IPLogEvent
@@ -100,6 +119,7 @@ type item struct {
 	touched bool
 	ev      *liveEvent // for record rows
 	id      uint64
+	kind    *kindDef // nil for log rows
 }
 
 type runner struct {
@@ -305,9 +325,13 @@ func (r *runner) step(o *op, kind string, corrupted bool, items []*item, call fu
 			v = r.val(it.val, it.stamp)
 			vd = fmt.Sprintf("#%d stamp=%d", r.intern(it.val, it.stamp), it.stamp)
 		}
-		slots[i] = fmt.Sprintf("mkSlot (mkItem %s %s %s %s %s) %s %s", kit.Bytes(it.pk), kit.Bytes(it.cc),
+		kcode, kname := uint64(0), ""
+		if it.kind != nil {
+			kcode, kname = it.kind.Code, it.kind.Name
+		}
+		slots[i] = fmt.Sprintf("mkSlot (mkItem %s %s %d %s %s %s) %s %s", kit.Bytes(it.pk), kit.Bytes(it.cc), kcode,
 			kit.Bool(it.isNew), kit.Bool(it.load), v, r.obsTerm(it.before), r.obsTerm(after))
-		so.Slots = append(so.Slots, slotObs{Key: fmt.Sprintf("%x/%x", it.pk, it.cc), New: it.isNew, Load: it.load, Val: vd,
+		so.Slots = append(so.Slots, slotObs{Key: fmt.Sprintf("%x/%x", it.pk, it.cc), Kind: kname, New: it.isNew, Load: it.load, Val: vd,
 			Before: r.obsDesc(it.before), After: r.obsDesc(after)})
 		r.tagSlot(kind, corrupted, it, it.before, after, res)
 	}
@@ -351,6 +375,9 @@ func (r *runner) tagSlot(kind string, corrupted bool, it *item, before, after ob
 	if corrupted {
 		pre = "corrupted"
 	}
+	if it.kind != nil {
+		op += ":" + it.kind.Name
+	}
 	r.tags[fmt.Sprintf("%s:t%d:%s:%s:%s", pre, r.sc.Trust, op, state, r.sc.Backend)] = true
 	r.tags["result:"+res] = true
 	if before.topOk && res == "RViolation" && bytes.Equal(before.top, after.top) {
@@ -361,22 +388,44 @@ func (r *runner) tagSlot(kind string, corrupted bool, it *item, before, after ob
 	}
 }
 
-func (r *runner) eventItems(ev *liveEvent) []*item {
+// recID: the storage id of a record of the scenario (singletons: the id the registry fixed)
+func (r *runner) recID(rs recSpec) (uint64, error) {
+	k := kindOf(rs.Kind)
+	if k == nil {
+		return 0, fmt.Errorf("unknown record kind %q", rs.Kind)
+	}
+	if k.Singleton {
+		id, err := r.rig.app.Records().GetSingletonID(qn(k.Name))
+		return uint64(id), err
+	}
+	return rs.ID, nil
+}
+
+func (r *runner) eventItems(ev *liveEvent) ([]*item, error) {
 	var items []*item
 	sp := ev.spec
-	mk := func(rs recSpec, isNew bool) *item {
-		pk, cc := recordKey(sp.WS, rs.ID)
-		ws, id := sp.WS, rs.ID
-		return &item{pk: pk, cc: cc, isNew: isNew, load: !isNew && ev.loaded && !ev.updLoaded[rs.ID], stamp: rs.Stamp, ev: ev, id: rs.ID,
-			api: func() (bool, int64, error) { return r.rig.apiRecord(ws, id) }}
+	mk := func(rs recSpec, isNew bool) error {
+		id, err := r.recID(rs)
+		if err != nil {
+			return err
+		}
+		pk, cc := recordKey(sp.WS, id)
+		ws := sp.WS
+		items = append(items, &item{pk: pk, cc: cc, isNew: isNew, load: !isNew && ev.loaded && !ev.updLoaded[id], stamp: rs.Stamp, ev: ev, id: id,
+			kind: kindOf(rs.Kind), api: func() (bool, int64, error) { return r.rig.apiRecord(ws, id) }})
+		return nil
 	}
 	for _, c := range sp.Creates {
-		items = append(items, mk(c, true))
+		if err := mk(c, true); err != nil {
+			return nil, err
+		}
 	}
 	for _, u := range sp.Updates {
-		items = append(items, mk(u, false))
+		if err := mk(u, false); err != nil {
+			return nil, err
+		}
 	}
-	return items
+	return items, nil
 }
 
 func (r *runner) plogItem(sp *evSpec) *item {
@@ -401,12 +450,49 @@ func (r *runner) build(o *op) error {
 		params.QName = istructs.QNameForCorruptedData
 		params.EventBytes = []byte(fmt.Sprintf("damaged-%d", sp.Stamp))
 	}
-	bld := app.Events().GetNewRawEventBuilder(istructs.NewRawEventBuilderParams{GenericRawEventBuilderParams: params})
+	if sp.Arg != nil {
+		params.QName = qnCmd
+	}
+	direct := false
+	for _, c := range sp.Creates {
+		direct = direct || c.Direct
+	}
+	var bld istructs.IRawEventBuilder
+	if direct {
+		// storage ids inside the event are accepted for synced events only
+		bld = app.Events().GetSyncRawEventBuilder(istructs.SyncRawEventBuilderParams{GenericRawEventBuilderParams: params, Device: 1, SyncedAt: istructs.UnixMilli(sp.Stamp)})
+	} else {
+		bld = app.Events().GetNewRawEventBuilder(istructs.NewRawEventBuilderParams{GenericRawEventBuilderParams: params})
+	}
+	if sp.Arg != nil {
+		ab := bld.ArgumentObjectBuilder()
+		ab.PutRecordID(appdef.SystemField_ID, argRawID)
+		ab.PutInt64(fldStamp, sp.Arg.Stamp)
+		lb := ab.ChildBuilder("lines")
+		lb.PutRecordID(appdef.SystemField_ID, argRawID+1)
+		lb.PutInt64(fldStamp, sp.Arg.Stamp)
+	}
 	if !sp.Corrupted {
 		cud := bld.CUDBuilder()
 		for i, c := range sp.Creates {
-			w := cud.Create(qnDoc)
-			w.PutRecordID(appdef.SystemField_ID, istructs.RecordID(i+1))
+			k := kindOf(c.Kind)
+			if k == nil {
+				return fmt.Errorf("build %s: unknown record kind %q", o.Name, c.Kind)
+			}
+			w := cud.Create(qn(k.Name))
+			if c.Direct {
+				w.PutRecordID(appdef.SystemField_ID, istructs.RecordID(c.ID))
+			} else {
+				w.PutRecordID(appdef.SystemField_ID, istructs.RecordID(i+1))
+			}
+			if k.Parent != "" {
+				if c.ParentRaw > 0 {
+					w.PutRecordID(appdef.SystemField_ParentID, istructs.RecordID(c.ParentRaw))
+				} else {
+					w.PutRecordID(appdef.SystemField_ParentID, istructs.RecordID(c.Parent))
+				}
+				w.PutString(appdef.SystemField_Container, k.Container)
+			}
 			w.PutInt64(fldStamp, c.Stamp)
 			if c.Pad != "" {
 				w.PutString(fldPad, c.Pad)
@@ -416,12 +502,17 @@ func (r *runner) build(o *op) error {
 			}
 		}
 		for _, u := range sp.Updates {
-			rec, err := app.Records().Get(istructs.WSID(sp.WS), true, istructs.RecordID(u.ID))
+			id, err := r.recID(u)
+			if err != nil {
+				return err
+			}
+			rec, err := app.Records().Get(istructs.WSID(sp.WS), true, istructs.RecordID(id))
 			if err != nil {
 				return err
 			}
 			if rec.QName() == appdef.NullQName {
-				return fmt.Errorf("build %s: record %d to update does not exist", o.Name, u.ID)
+				r.events[o.Name] = &liveEvent{spec: sp, unbuilt: fmt.Sprintf("record %d to update does not exist", id)}
+				return r.skip(o, r.events[o.Name].unbuilt)
 			}
 			w := cud.Update(rec)
 			w.PutInt64(fldStamp, u.Stamp)
@@ -431,12 +522,20 @@ func (r *runner) build(o *op) error {
 		}
 	}
 	raw, berr := bld.BuildRawEvent()
-	if !sp.Corrupted && (berr != nil) != sp.Invalid {
-		return fmt.Errorf("build %s: unexpected build outcome: %v", o.Name, berr)
+	if !sp.Corrupted && !sp.Invalid && berr != nil {
+		// validEvent refused it in the state reached (a singleton that exists, ...): deterministic; ops on it are skipped
+		r.events[o.Name] = &liveEvent{spec: sp, unbuilt: berr.Error()}
+		return r.skip(o, "build refused: "+berr.Error())
+	}
+	if sp.Invalid && berr == nil {
+		return fmt.Errorf("build %s: the invalid event was built without an error", o.Name)
 	}
 	r.events[o.Name] = &liveEvent{spec: sp, raw: raw, berr: berr}
 	return nil
 }
+
+// raw ids of the ODoc argument and its nested ORecord
+const argRawID = 1000
 
 func (r *runner) get(name string) (*liveEvent, error) {
 	ev, ok := r.events[name]
@@ -477,9 +576,15 @@ func (r *runner) runOp(o *op) error {
 		if err != nil {
 			return err
 		}
-		ids := make([]uint64, len(ev.spec.Creates))
+		if ev.unbuilt != "" || ev.raw == nil {
+			return r.skip(o, "event was not built")
+		}
+		ids := map[uint64]uint64{}
 		for i, c := range ev.spec.Creates {
-			ids[i] = c.ID
+			ids[uint64(i+1)] = c.ID
+		}
+		if a := ev.spec.Arg; a != nil {
+			ids[argRawID], ids[argRawID+1] = a.ID, a.LineID
 		}
 		return r.step(o, "KPlog", ev.spec.Corrupted, []*item{r.plogItem(ev.spec)}, func() error {
 			pev, err := r.rig.app.Events().PutPlog(ev.raw, ev.berr, &scriptedIDs{ids: ids})
@@ -505,7 +610,11 @@ func (r *runner) runOp(o *op) error {
 		if ev.pev == nil || ev.spec.Invalid || ev.spec.Corrupted {
 			return r.skip(o, "no valid PLog event")
 		}
-		return r.step(o, "KApply", false, r.eventItems(ev), func() error { return r.rig.app.Records().Apply(ev.pev) })
+		items, err := r.eventItems(ev)
+		if err != nil {
+			return err
+		}
+		return r.step(o, "KApply", false, items, func() error { return r.rig.app.Records().Apply(ev.pev) })
 	case "reread":
 		src, err := r.get(o.Name)
 		if err != nil {
@@ -551,7 +660,11 @@ func (r *runner) runOp(o *op) error {
 		if ra == nil {
 			return r.skip(o, why)
 		}
-		return r.step(o, "KReapplyRecs", false, r.eventItems(ev), func() error { return ra.ApplyRecords() })
+		items, err := r.eventItems(ev)
+		if err != nil {
+			return err
+		}
+		return r.step(o, "KReapplyRecs", false, items, func() error { return ra.ApplyRecords() })
 	case "reapply_wlog":
 		ev, err := r.get(o.Name)
 		if err != nil {
@@ -566,8 +679,12 @@ func (r *runner) runOp(o *op) error {
 		}
 		return r.step(o, "KReapplyWlog", ev.spec.Corrupted, []*item{r.wlogItem(ev.spec)}, func() error { return ra.PutWLog() })
 	case "rawdel":
-		pk, cc := recordKey(o.WS, o.ID)
-		ws, id := o.WS, o.ID
+		id, err := r.recID(recSpec{Kind: o.Kind, ID: o.ID})
+		if err != nil {
+			return err
+		}
+		pk, cc := recordKey(o.WS, id)
+		ws := o.WS
 		it := &item{pk: pk, cc: cc, isNew: false, api: func() (bool, int64, error) { return r.rig.apiRecord(ws, id) }}
 		return r.step(o, "KRawDel", false, []*item{it}, func() error {
 			var cur []byte
